@@ -457,4 +457,187 @@ theorem treeK_not_found {P : List Str → PV → Prop} : ∀ (path : List Str) (
         simpa using this
     · exact treeV_mono kv.2 _ (fun ext y hp => ⟨hp, append_singleton_ne hk⟩) hx
 
+/-! ### worlds: `getValueAt` -/
+theorem find?_of_pairwise {α β : Type} [BEq β] [LawfulBEq β] (f : α → β) : ∀ (l : List α) (x : α),
+    (l.map f).Pairwise (· ≠ ·) → x ∈ l → l.find? (fun y => f y == f x) = some x
+  | [], x, _, hx => by simp at hx
+  | hd :: tl, x, hp, hx => by
+    simp only [List.map, List.pairwise_cons] at hp
+    rcases List.mem_cons.mp hx with rfl | hm
+    · simp [List.find?]
+    · have hne : (f hd == f x) = false := by
+        cases hb : f hd == f x
+        · rfl
+        · have : f hd = f x := by simpa using hb
+          exact absurd this (hp.1 (f x) (List.mem_map_of_mem hm))
+      simp only [List.find?, hne]
+      exact find?_of_pairwise f tl x hp.2 hm
+
+/-- in a well-formed world a lookup is `locGet` in the locale with that name of the namespace with that name -/
+theorem getValueAt_mem {w : World} (hw : WorldWF w) {ns : NS} {l : Loc} (hns : ns ∈ w.nss) (hl : l ∈ ns.locales)
+    (q : List Str) : w.getValueAt l.name ⟨ns.key, q⟩ = locGet l.keys q := by
+  have hfl : ns.locales.find? (fun l' => l'.name == l.name) = some l :=
+    find?_of_pairwise Loc.name ns.locales l (hw.locDistinct ns hns) hl
+  cases hn : w.namespaced with
+  | true =>
+    have hk := hw.nsSome hn ns hns
+    cases hkey : ns.key with
+    | none => rw [hkey] at hk; simp at hk
+    | some t =>
+      have hfn : w.nss.find? (fun ns' => ns'.key == some t) = some ns := by
+        have := find?_of_pairwise NS.key w.nss ns hw.nsDistinct hns
+        rw [hkey] at this; exact this
+      simp only [getValueAt, hn, hfn, hfl]
+  | false =>
+    obtain ⟨locs, hnss⟩ := hw.nsNone hn
+    rw [hnss] at hns
+    simp only [List.mem_singleton] at hns
+    subst hns
+    simp only [getValueAt, hn, hnss, hfl]
+
+theorem getValueAt_cases {w : World} (hw : WorldWF w) (top : Str) (p : KeyPath) :
+    w.getValueAt top p = .ok none ∨
+    ∃ ns ∈ w.nss, ∃ l ∈ ns.locales, ns.key = p.ns ∧ l.name = top ∧ w.getValueAt top p = locGet l.keys p.path := by
+  obtain ⟨pns, ppath⟩ := p
+  cases hn : w.namespaced with
+  | true =>
+    cases pns with
+    | none => left; simp [getValueAt, hn]
+    | some t =>
+      cases hfn : w.nss.find? (fun ns' => ns'.key == some t) with
+      | none => left; simp [getValueAt, hn, hfn]
+      | some ns =>
+        cases hfl : ns.locales.find? (fun l' => l'.name == top) with
+        | none => left; simp [getValueAt, hn, hfn, hfl]
+        | some l =>
+          right
+          have h1 := List.find?_some hfn
+          have h2 := List.find?_some hfl
+          refine ⟨ns, List.mem_of_find?_eq_some hfn, l, List.mem_of_find?_eq_some hfl, by simpa using h1, by simpa using h2, ?_⟩
+          simp [getValueAt, hn, hfn, hfl]
+  | false =>
+    cases pns with
+    | some t => left; simp [getValueAt, hn]
+    | none =>
+      obtain ⟨locs, hnss⟩ := hw.nsNone hn
+      cases hfl : locs.find? (fun l' => l'.name == top) with
+      | none => left; simp [getValueAt, hn, hnss, hfl]
+      | some l =>
+        right
+        have h2 := List.find?_some hfl
+        refine ⟨⟨none, locs⟩, by simp [hnss], l, List.mem_of_find?_eq_some hfl, rfl, by simpa using h2, ?_⟩
+        simp [getValueAt, hn, hnss, hfl]
+
+/-! ### worlds: `setValueAt` -/
+def setLoc (top : Str) (path : List Str) (v : PV) (l : Loc) : Loc :=
+  if l.name == top then l.setKeys (locSet l.keys path v) else l
+def setNs (top : Str) (p : KeyPath) (v : PV) (ns : NS) : NS :=
+  if ns.key == p.ns then { ns with locales := ns.locales.map (setLoc top p.path v) } else ns
+
+theorem setValueAt_eq (w : World) (top : Str) (p : KeyPath) (v : PV) :
+    w.setValueAt top p v = { w with nss := w.nss.map (setNs top p v) } := rfl
+
+theorem setLoc_name (top : Str) (path : List Str) (v : PV) (l : Loc) : (setLoc top path v l).name = l.name := by
+  unfold setLoc
+  split
+  · obtain ⟨n, t, ks, s, c⟩ := l; rfl
+  · rfl
+
+theorem setLoc_keys (top : Str) (path : List Str) (v : PV) (l : Loc) :
+    (setLoc top path v l).keys = if l.name = top then locSet l.keys path v else l.keys := by
+  unfold setLoc
+  by_cases h : l.name = top
+  · simp only [h, beq_self_eq_true, if_true]
+    obtain ⟨n, t, ks, s, c⟩ := l; rfl
+  · have : (l.name == top) = false := by simpa using h
+    simp [this, h]
+
+theorem setNs_key (top : Str) (p : KeyPath) (v : PV) (ns : NS) : (setNs top p v ns).key = ns.key := by
+  unfold setNs; split <;> rfl
+
+theorem setNs_locales (top : Str) (p : KeyPath) (v : PV) (ns : NS) :
+    (setNs top p v ns).locales = if ns.key = p.ns then ns.locales.map (setLoc top p.path v) else ns.locales := by
+  unfold setNs
+  by_cases h : ns.key = p.ns
+  · simp [h]
+  · have : (ns.key == p.ns) = false := by simpa using h
+    simp [this, h]
+
+theorem setNs_names (top : Str) (p : KeyPath) (v : PV) (ns : NS) :
+    (setNs top p v ns).locales.map Loc.name = ns.locales.map Loc.name := by
+  rw [setNs_locales]
+  split
+  · rw [List.map_map]
+    apply List.map_congr_left
+    intro l _
+    exact setLoc_name _ _ _ l
+  · rfl
+
+theorem setValueAt_wf {w : World} (hw : WorldWF w) (top : Str) (p : KeyPath) (v : PV) :
+    WorldWF (w.setValueAt top p v) := by
+  rw [setValueAt_eq]
+  have hkeys : (w.nss.map (setNs top p v)).map NS.key = w.nss.map NS.key := by
+    rw [List.map_map]; apply List.map_congr_left; intro ns _; exact setNs_key _ _ _ ns
+  constructor
+  · intro hn ns' hns'
+    simp only [List.mem_map] at hns'
+    obtain ⟨ns, hns, rfl⟩ := hns'
+    rw [setNs_key]; exact hw.nsSome hn ns hns
+  · intro hn
+    obtain ⟨locs, hnss⟩ := hw.nsNone hn
+    simp only [hnss, List.map]
+    refine ⟨(setNs top p v ⟨none, locs⟩).locales, ?_⟩
+    have := setNs_key top p v ⟨none, locs⟩
+    cases hh : setNs top p v ⟨none, locs⟩ with
+    | mk k ls => rw [hh] at this; simp at this; subst this; rfl
+  · simp only [hkeys]; exact hw.nsDistinct
+  · intro ns' hns'
+    simp only [List.mem_map] at hns'
+    obtain ⟨ns, hns, rfl⟩ := hns'
+    rw [setNs_names]; exact hw.locDistinct ns hns
+  · intro ns' hns'
+    simp only [List.mem_map] at hns'
+    obtain ⟨ns, hns, rfl⟩ := hns'
+    have h1 := hw.nonempty ns hns
+    have h2 := setNs_names top p v ns
+    intro e
+    rw [e] at h2
+    simp at h2
+    exact h1 h2
+
+/-- every locale of the updated world is the image of a locale of the old one -/
+theorem setValueAt_mem_inv {w : World} {top : Str} {p : KeyPath} {v : PV} {ns' : NS} {l' : Loc}
+    (hns' : ns' ∈ (w.setValueAt top p v).nss) (hl' : l' ∈ ns'.locales) :
+    ∃ ns ∈ w.nss, ∃ l ∈ ns.locales, ns'.key = ns.key ∧ l'.name = l.name ∧
+      l'.keys = if ns.key = p.ns ∧ l.name = top then locSet l.keys p.path v else l.keys := by
+  rw [setValueAt_eq] at hns'
+  simp only [List.mem_map] at hns'
+  obtain ⟨ns, hns, rfl⟩ := hns'
+  rw [setNs_locales] at hl'
+  by_cases hk : ns.key = p.ns
+  · simp only [hk, if_true, List.mem_map] at hl'
+    obtain ⟨l, hl, rfl⟩ := hl'
+    refine ⟨ns, hns, l, hl, setNs_key _ _ _ _, setLoc_name _ _ _ _, ?_⟩
+    rw [setLoc_keys]
+    simp [hk]
+  · simp only [hk, if_false] at hl'
+    refine ⟨ns, hns, l', hl', setNs_key _ _ _ _, rfl, ?_⟩
+    simp [hk]
+
+/-- … and every locale of the old world has its image in the updated one -/
+theorem setValueAt_mem {w : World} (top : Str) (p : KeyPath) (v : PV) {ns : NS} {l : Loc}
+    (hns : ns ∈ w.nss) (hl : l ∈ ns.locales) :
+    ∃ ns' ∈ (w.setValueAt top p v).nss, ∃ l' ∈ ns'.locales, ns'.key = ns.key ∧ l'.name = l.name ∧
+      l'.keys = if ns.key = p.ns ∧ l.name = top then locSet l.keys p.path v else l.keys := by
+  refine ⟨setNs top p v ns, ?_, ?_⟩
+  · rw [setValueAt_eq]; exact List.mem_map_of_mem hns
+  · rw [setNs_locales]
+    by_cases hk : ns.key = p.ns
+    · rw [if_pos hk]
+      refine ⟨setLoc top p.path v l, List.mem_map_of_mem hl, setNs_key _ _ _ _, setLoc_name _ _ _ _, ?_⟩
+      rw [setLoc_keys]; simp [hk]
+    · rw [if_neg hk]
+      refine ⟨l, hl, setNs_key _ _ _ _, rfl, ?_⟩
+      simp [hk]
+
 end I18nVerif.PipeInv
